@@ -57,6 +57,9 @@ func (e editor) enter(from *Selection, to *Selection, new bool, strategy editStr
 		m := ml.nextMeta()
 		//fmt.Printf("Begin %s\n", meta.SchemaPath(from.Meta()))
 		for m != nil {
+			if ml.err != nil {
+				return ml.err
+			}
 			var err error
 			if meta.IsLeaf(m) {
 				err = e.leaf(from, to, m.(meta.Leafable), new, strategy)
@@ -131,6 +134,9 @@ func (e editor) clearChoiceCase(sel *Selection, c *meta.ChoiceCase) error {
 	i := newChoiceCaseIterator(sel, c)
 	m := i.nextMeta()
 	for m != nil {
+		if i.err != nil {
+			return i.err
+		}
 		if meta.IsLeaf(m) {
 			if err := sel.ClearField(m.(meta.Leafable)); err != nil {
 				return err
